@@ -212,7 +212,9 @@ def check(ctx):
             except Exception:
                 continue
             for i, a in enumerate(aset["adapters"]):
-                for tail in ("", U.rand_seq(rng, 1, "ACGT"), U.rand_seq(rng, rng.choice([2, 5, 9]), "ACGT")):
+                nt = U.rand_seq(rng, rng.choice([0, 3, 9]), "ACGT")
+                for tail in ("", U.rand_seq(rng, 1, "ACGT"), U.rand_seq(rng, rng.choice([2, 5, 9]), "ACGT"), ("N" + nt) if aset["prefix"] else (nt + "N")):
+                    # (last form: an N right next to the copy -- the look-up of the longer affix with the N in it fails, the copy itself is still found)
                     read = a["seq"] + tail if aset["prefix"] else tail + a["seq"]
                     if set(c08.occurrences(aset, read)) != {i}:
                         continue
@@ -229,6 +231,36 @@ def check(ctx):
                                       {"aset": aset, "read": read, "observed": None if res is None else list(res), "expected": list(want),
                                        "why": "adapter %d of the set occurs without errors at the anchored end of %r and no other adapter occurs within its tolerance; "
                                               "the indexed search reports %r" % (i, read, res), "indexed": True})
+        # ---- a set the adapter cutter regroups for the index (two or more anchored adapters of one kind) together with a single
+        # anchored adapter of the other kind: an error-free copy of that one at its end of the read, where none of the others
+        # occurs, is removed exactly as well
+        import cutadapt.adapters as A
+        from cutadapt.modifiers import AdapterCutter
+        from cutadapt.info import ModificationInfo
+        from dnaio import SequenceRecord
+        for _ in range(ctx.size(60, 800)):
+            aset = c08.rand_adapter_set(rng)
+            lone_seq = U.rand_seq(rng, rng.choice([8, 10, 12]), "ACGT")
+            filler = U.rand_seq(rng, rng.randint(14, 25), "ACGT")
+            read = (filler + lone_seq) if aset["prefix"] else (lone_seq + filler)
+            if c08.occurrences(aset, read):
+                continue
+            try:
+                objs = c08.build(aset)
+                lone = (A.SuffixAdapter if aset["prefix"] else A.PrefixAdapter)(lone_seq, max_errors=0.1, name="lone")
+                pos = rng.randint(0, len(objs))
+                cutter = AdapterCutter(objs[:pos] + [lone] + objs[pos:], times=1, action="trim", index=True)
+                rec = SequenceRecord("r", read, "I" * len(read))
+                got = cutter(rec, ModificationInfo(rec)).sequence
+            except Exception as e:
+                got = "raises %s" % type(e).__name__
+            ctx.count(("indexed-lone", json.dumps(aset, sort_keys=True), read), True)
+            dist["lone anchored adapter next to an indexed set"] = dist.get("lone anchored adapter next to an indexed set", 0) + 1
+            if got != filler:
+                ctx.violation("anchored exact copy not removed (adapter next to an indexed set)",
+                              {"aset": aset, "lone": lone_seq, "position": pos, "read": read, "observed": got, "expected": filler, "indexed_lone": True,
+                               "why": "the %s adapter %s occurs without errors at its end of %r and no adapter of the indexed set occurs; the cutter returns %r"
+                                      % ("3' anchored" if aset["prefix"] else "5' anchored", lone_seq, read, got)})
     finally:
         logging.disable(logging.NOTSET)
     mod = core.model_run(lines) if model_ok else [None] * len(lines)
@@ -249,6 +281,21 @@ def check(ctx):
 
 def replay(doc):
     r = doc["replay"]
+    if r.get("indexed_lone"):
+        from . import c08
+        buildimpl.activate()
+        import cutadapt.adapters as A
+        from cutadapt.modifiers import AdapterCutter
+        from cutadapt.info import ModificationInfo
+        from dnaio import SequenceRecord
+        aset = r["aset"]
+        objs = c08.build(aset)
+        lone = (A.SuffixAdapter if aset["prefix"] else A.PrefixAdapter)(r["lone"], max_errors=0.1, name="lone")
+        cutter = AdapterCutter(objs[:r["position"]] + [lone] + objs[r["position"]:], times=1, action="trim", index=True)
+        rec = SequenceRecord("r", r["read"], "I" * len(r["read"]))
+        got = cutter(rec, ModificationInfo(rec)).sequence
+        print("adapter set", aset, "+ lone", r["lone"], "read", r["read"], "->", got, "| expected", r["expected"], "|", "property holds on this input" if got == r["expected"] else "exact copy not removed")
+        return 0 if got == r["expected"] else 1
     if r.get("indexed"):
         from . import c08
         buildimpl.activate()
